@@ -719,7 +719,7 @@ class Evaluator:
         outs = []
         for stt, status, val, ln in exits:
             extra = stt.conds[len(base_conds):]
-            s = State(dict(s0.env), add_conds(s0.conds, tuple(extra_conds) + tuple(extra)), stt.notes)
+            s = State(self._exit_env(s0, before, stt, normals + breaks, st.target), add_conds(s0.conds, tuple(extra_conds) + tuple(extra)), stt.notes)
             outs.append((s, status, val, ln))
         after = s0.fork()
         changed: dict[str, list] = {}
@@ -777,6 +777,28 @@ class Evaluator:
             outs.append((after, "fall", None, line))
         return outs
 
+
+    def _exit_env(self, s0: State, before: dict, stt: State, normals: list, target) -> dict:
+        """Environment on a path that LEAVES the loop in some iteration: what that iteration itself assigned survives when no iteration that stays
+        in the loop touches the same variable (then the value at the start of the leaving iteration is the value before the loop)."""
+        env = dict(s0.env)
+        touched = set()
+        for st2, _status, _v, _ln in normals:
+            for name, newv in st2.env.items():
+                oldv = before.get(name)
+                if newv is not oldv and newv != oldv:
+                    touched.add(name)
+        tnames = _target_names(target)
+        for name, newv in stt.env.items():
+            if name in tnames or (name.startswith("%") and name != "%yield"):
+                continue
+            oldv = before.get(name)
+            if newv is oldv or newv == oldv or oldv is None:
+                continue
+            if name not in touched:
+                env[name] = newv
+        return env
+
     def _bind_target(self, tgt: ast.expr, state: State) -> Term:
         """Bind loop/comprehension target to fresh bound variables; returns the target pattern term."""
         if isinstance(tgt, ast.Name):
@@ -815,11 +837,12 @@ class Evaluator:
         # search-loop exits: "for some element of the iterable the body reaches return/raise"
         for stt, status, val, ln in exits:
             extra = stt.conds[len(base_conds):]
-            s = State(dict(s0.env), s0.conds + (member,) + extra, stt.notes)
+            s = State(self._exit_env(s0, before, stt, normals + breaks, st.target), s0.conds + (member,) + extra, stt.notes)
             outs.append((s, status, val, ln))
         # fall-through state: accumulate effects of normal iterations
         after = s0.fork()
         changed: dict[str, list[tuple[tuple, Term]]] = {}
+        from_break: dict[str, list[bool]] = {}
         ok = True
         for stt, status, val, ln in normals + breaks:
             extra = stt.conds[len(base_conds):]
@@ -832,9 +855,17 @@ class Evaluator:
                 if self._is_loop_target(name, st.target):
                     continue
                 changed.setdefault(name, []).append((extra, newv))
+                from_break.setdefault(name, []).append(status == "break")
         for name, alts in changed.items():
             oldv = before.get(name)
-            acc = self._summarise_accumulation(name, oldv, alts, pat, it, line, bool(breaks), n_paths=len(normals) + len(breaks))
+            first_hit = None
+            if breaks and not exits and len(alts) == 1 and all(from_break[name]) and len(breaks) == 1:
+                # the loop stops in the very iteration that adds its (single) element: the element of the first iteration that gets there
+                dec = self._decompose(oldv, alts[0][1]) if oldv is not None else None
+                if dec is not None and len(dec) == 1 and dec[0][0] == "concat" and not dec[0][2] and dec[0][1][0] == "listlit" and len(dec[0][1][1]) == 1:
+                    first_hit = ("accum", "concat", oldv, dec[0][1], ((pat, ("firsthit", it), tuple(alts[0][0])),), const(False))
+            acc = first_hit if first_hit is not None else self._summarise_accumulation(
+                name, oldv, alts, pat, it, line, bool(breaks), n_paths=len(normals) + len(breaks))
             if (acc is None or has_unknown(acc)) and self.loop_once and oldv is not None:
                 # relational abstraction (used only when BOTH sides of a comparison are evaluated this way): the state after ONE generic
                 # iteration -- a case distinction over the body's paths -- tagged with the collection the loop ranges over
